@@ -316,7 +316,7 @@ class FsmWorld(pipe.PipeWorld):
         self.probes['submission_accepted'] += 1
         self.probes['accepted_' + PRIO_NAMES[p]] += 1
         if self.pending is None:
-            self.pending = aegen.evolve(self.ch, self.spec, max_total=self.cfg['max_total'], graph_edits=False)
+            self.pending = aegen.evolve(self.ch, self.spec, max_total=self.cfg['max_total'], graph_edits=self.cfg.get('fsm_graph_edits', False))
             self.probes['software_update'] += 1
 
     def condition(self, p):
@@ -475,7 +475,7 @@ class FsmWorld(pipe.PipeWorld):
         self.op(f'user: reset via {ep} archive={arch} (state {ctx.fsm.state})')
         self.probes['reset_request'] += 1
         if ctx.fsm.is_pipeline_active() and self.pending is None and ch.flip('reset.newsoftware', 1, 2):
-            self.pending = aegen.evolve(ch, self.spec, max_total=self.cfg['max_total'], graph_edits=False)
+            self.pending = aegen.evolve(ch, self.spec, max_total=self.cfg['max_total'], graph_edits=self.cfg.get('fsm_graph_edits', False))
         c = http.HttpClient(self.sim, pipeenv.FE_PORT, 'POST', ep, {'archive': arch}, on_done=lambda c: None)
         self.http_pending.append(c)
 
